@@ -1069,3 +1069,28 @@ Proof.
   intro H. apply (verify_keys T W _ _ H). intros k Hk. apply construct_has_defaults.
   apply (touched_in_defaults T W); exact Hk.
 Qed.
+
+(* ================================================================== *)
+(* pilot descriptions                                                   *)
+
+Theorem pd_verify_idempotent T d d' : pd_verify T d = inr d' -> pd_verify T d' = inr d'.
+Proof.
+  unfold pd_verify. destruct (typecheck (t_schema T) d) as [e|d1] eqn:E; [discriminate|].
+  destruct (pd_rules d1) eqn:R; [|discriminate]. intro H; injection H as <-.
+  rewrite (typecheck_idem _ _ _ E), R. reflexivity.
+Qed.
+
+Theorem pd_verify_rules T d d' : pd_verify T d = inr d' -> pd_rules d' = true.
+Proof.
+  unfold pd_verify. destruct (typecheck (t_schema T) d) as [e|d1]; [discriminate|].
+  destruct (pd_rules d1) eqn:R; [|discriminate]. intro H; injection H as <-. exact R.
+Qed.
+
+Theorem pd_verify_untouched T k t d d' :
+  pd_verify T d = inr d' -> lookup k (t_schema T) = Some t -> cast t (getv k d) = inr (getv k d')
+  /\ map fst d' = map fst d.
+Proof.
+  unfold pd_verify. destruct (typecheck (t_schema T) d) as [e|d1] eqn:E; [discriminate|].
+  destruct (pd_rules d1); [|discriminate]. intros H Hk; injection H as <-.
+  split; [apply (typecheck_getv _ _ _ _ _ E Hk)|apply (typecheck_keys _ _ _ E)].
+Qed.
